@@ -226,3 +226,16 @@ Example C06_nonvacuous_inexact :
   inexact_excess_of bl [1;2;5;7]%N = (-1)%Z /\ inexact_pos_dec bl [1;2;5;7]%N = false /\
   inexact_excess_of bl [0;1;2]%N = 1%Z /\ inexact_pos_dec bl [0;1;2]%N = true.
 Proof. vm_compute. repeat split; reflexivity. Qed.
+
+(* ---- audit (audit/props_C04_C06_C09_C16.md): all hypotheses of C06_excess_pos_dec_sound / C06_excess_flow_safe about the decomposition D,
+   on the flow 5 splitting 3 / 2 and merging again with D = {0 1 2 4 5 : 3, 0 1 3 4 5 : 2}; the reported path 0 1 2 4 5 has excess 3 ---- *)
+From FP Require AuditExamples17 SafetyProofs3.
+Example C06_excess_flow_hypotheses_satisfiable :
+  excess_pos_dec AuditExamples17.xfl [0;1;2;4;5]%N = true /\
+  (forall pw, In pw AuditExamples17.xD -> (0 <= snd pw)%Z) /\
+  (forall pw, In pw AuditExamples17.xD -> incl (pairs (fst pw)) (map fst AuditExamples17.xfl)) /\
+  (forall pw x, In pw AuditExamples17.xD -> ~ In (last (fst pw) 0%N, x) (map fst AuditExamples17.xfl)) /\
+  (forall e, In e (map fst AuditExamples17.xfl) -> SafetyProofs3.Wt AuditExamples17.xD (SafetyProofs3.hasb e) = flow_of AuditExamples17.xfl e) /\
+  (0 < excess (map fst AuditExamples17.xfl) (flow_of AuditExamples17.xfl) [0;1;2;4;5]%N)%Z.
+Proof. exact AuditExamples17.excess_hypotheses. Qed.
+Print Assumptions C06_excess_flow_hypotheses_satisfiable.
